@@ -124,6 +124,19 @@ def oracle(case, rec):
                 rec.cls('adjacent_wraps')
     if p2.shape[1] > 1:
         rec.cls('multicolumn')
+        # one validity mask (a vector) shared by all columns: each column must come out as it does alone with that mask
+        m = np.ones(p2.shape[0], dtype=bool)
+        m[p2.shape[0] // 2: p2.shape[0] // 2 + max(1, p2.shape[0] // 6)] = False
+        try:
+            both = np.asarray(emd.cycles.get_cycle_vector(stored.copy(), return_good=good, mask=m.copy(), **kwargs))
+            for c in range(p2.shape[1]):
+                one = np.asarray(emd.cycles.get_cycle_vector(p2[:, c].copy(), return_good=good, mask=m.copy(), **kwargs))[:, 0]
+                if both.shape != p2.shape or not np.array_equal(both[:, c], one):
+                    raise Violation('C12/get_cycle_vector/column-dependence/with-mask', 'column %d' % c)
+        except Violation:
+            raise
+        except Exception as e:
+            raise Violation('C12/get_cycle_vector/raises/%s/multi-column-with-mask' % type(e).__name__, repr(e))
         for c in range(p2.shape[1]):
             single = emd.cycles.get_cycle_vector(p2[:, c].copy(), return_good=good, **kwargs)
             if not np.array_equal(np.asarray(single)[:, 0], out[:, c]):
